@@ -4,7 +4,7 @@ CHECK = dict(
     variants=[dict(name="asan", flavour="asan")],
     floor={"asan:owned_array_copies": 200, "asan:fixed_array_copies": 100, "asan:fixed_array_views": 200,
            "asan:dataview_layouts": 100, "asan:wrapper_readouts": 10000,
-           "asan:owned_array_ops_failed_by_failpoint": 200, "asan:dataview_resets": 2000, "asan:dataview_strides_not_multiple_of_element_size": 1000, "asan:owned_array_self_sourced_resets": 200},
+           "asan:owned_array_ops_failed_by_failpoint": 200, "asan:dataview_resets": 2000, "asan:fixed_array_views_at_the_end": 200, "asan:dataview_strides_not_multiple_of_element_size": 1000, "asan:owned_array_self_sourced_resets": 200},
     assumptions=[
         "after an OwnedArray operation in which an element copy throws (failpoint) the array may hold the old or the new size and any "
         "per-index mix of old and new elements; what is demanded is that size()/data() describe live storage of exactly those",
